@@ -113,10 +113,12 @@ pub struct Out {
     pub viol: Vec<(String, String, String)>,
     pub fired: crate::kernel::io::IoFired,
     pub memo_fp: u64,
+    /// reachability probes of the verif-hooks feature that fired during the call
+    pub hooks: Vec<(&'static str, u64)>,
 }
 impl Out {
     fn new(class: Class, note: impl Into<String>) -> Out {
-        Out { class, av: None, note: note.into(), viol: vec![], fired: Default::default(), memo_fp: 0 }
+        Out { class, av: None, note: note.into(), viol: vec![], fired: Default::default(), memo_fp: 0, hooks: vec![] }
     }
 }
 
@@ -237,7 +239,9 @@ fn fail_arg(b: &mut IDLBuilder, k: &FailKind) -> Result<(), String> {
 
 fn run_stage(st: &mut TaskState, stage: &Stage, check_c03: bool) -> Out {
     let fp = memo_fingerprint();
+    candid::verif::take_probes();
     let mut out = run_stage_(st, stage, check_c03);
+    out.hooks = candid::verif::take_probes().into_iter().collect();
     out.memo_fp = fp;
     out
 }
@@ -780,6 +784,9 @@ pub fn execute(sc: &Sc, ctx: &mut Ctx) -> Result<(), String> {
         }).as_bytes()));
         for (k, n) in [("short_write", o.fired.short), ("eintr", o.fired.intr), ("write_zero", o.fired.eof), ("writer_hard_error", o.fired.error)] {
             ctx.stats.fault(k, n);
+        }
+        for (k, n) in &o.hooks {
+            ctx.stats.probe_n(&format!("hook:{k}"), *n);
         }
         // history probes
         let lb = live_builders.entry(w).or_default();
